@@ -190,12 +190,24 @@ def toCond (f : Func) : Option (Cond Atom) :=
   | [] => none
   | a :: as => some ⟨f.neg, a, as⟩
 
+def toConds : List Func → Option (List (Cond Atom))
+  | [] => some []
+  | f :: fs =>
+    match toCond f, toConds fs with
+    | some c, some cs => some (c :: cs)
+    | _, _ => none
+
 def toRule (r : SrcRule) : Option (Rule Atom Nat) :=
-  match r.funcs.mapM toCond with
+  match toConds r.funcs with
   | some (c :: cs) => some ⟨c, cs, .final r.out⟩
   | _ => none
 
-def toRules (rs : List SrcRule) : Option (List (Rule Atom Nat)) := rs.mapM toRule
+def toRules : List SrcRule → Option (List (Rule Atom Nat))
+  | [] => some []
+  | r :: rs =>
+    match toRule r, toRules rs with
+    | some x, some xs => some (x :: xs)
+    | _, _ => none
 
 /-- `MatchType_*` -/
 inductive MType where
@@ -237,16 +249,17 @@ def isIpset : Atom → Bool
   | _ => false
 
 /-- `b.rules = append(b.rules, …)`: `Value` of an ip set is `len(b.ipSet)` at the time it is added. -/
+def toMS (e : Entry Atom Nat) (n : Nat) : MatchSet :=
+  match e.cond with
+  | .dom _ _ => ⟨.domainSet, 0, e.neg, tailByte e.tail⟩
+  | .qtype v => ⟨.qtype, v, e.neg, tailByte e.tail⟩
+  | .ipset _ => ⟨.ipSet, n, e.neg, tailByte e.tail⟩
+  | .upstream v => ⟨.upstream, v, e.neg, tailByte e.tail⟩
+  | .always => ⟨.fallback, 0, e.neg, tailByte e.tail⟩
+
 def linkMs : List (Entry Atom Nat) → Nat → List MatchSet
   | [], _ => []
-  | e :: es, n =>
-    (match e.cond with
-      | .dom _ _ => ⟨.domainSet, 0, e.neg, tailByte e.tail⟩
-      | .qtype v => ⟨.qtype, v, e.neg, tailByte e.tail⟩
-      | .ipset _ => ⟨.ipSet, n, e.neg, tailByte e.tail⟩
-      | .upstream v => ⟨.upstream, v, e.neg, tailByte e.tail⟩
-      | .always => ⟨.fallback, 0, e.neg, tailByte e.tail⟩) ::
-    linkMs es (if isIpset e.cond then n + 1 else n)
+  | e :: es, n => toMS e n :: linkMs es (if isIpset e.cond then n + 1 else n)
 
 /-- `simulatedDomainSet`: `RuleIndex` is `len(b.rules)` at the time the set is added. -/
 def linkDoms : List (Entry Atom Nat) → Nat → List DomEntry
@@ -275,8 +288,15 @@ def entriesOf (R : List (Rule Atom Nat)) (fb : Nat) : List (Entry Atom Nat) :=
 def compile (rs : List SrcRule) (fb : Nat) : Option Prog :=
   (toRules rs).map fun R => link (entriesOf R fb)
 
+/-- the request builder only registers `qname` and `qtype` parsers ("unknown function" otherwise). -/
+def Func.isReqFunc : Func → Bool
+  | .qname _ _ | .qtype _ _ => true
+  | _ => false
+
 /-- `NewRequestMatcherBuilder`: internal-selector rules are split away first. -/
-def compileRequest (rs : List SrcRule) (fb : Nat) : Option Prog := compile (splitRequestRules rs) fb
+def compileRequest (rs : List SrcRule) (fb : Nat) : Option Prog :=
+  if (splitRequestRules rs).all (fun r => r.funcs.all Func.isReqFunc) then compile (splitRequestRules rs) fb
+  else none
 
 /-! ## The matchers' loop -/
 
